@@ -246,14 +246,14 @@ def ob_config():
         M = len(s)
         if case["cls"] in ("PSK", "QAM") and M != case["args"][0]:
             return {"M": M}
-        if o.M != M or abs(o.K - math.log2(M)) > 1e-12:
+        if o.M != M or (not (abs(o.K - math.log2(M)) <= 1e-12)):
             return {"M/K": [o.M, o.K]}
-        if abs(np.mean(np.abs(s) ** 2) - 1) > 1e-12:
+        if (not (abs(np.mean(np.abs(s) ** 2) - 1) <= 1e-12)):
             return {"mean energy": float(np.mean(np.abs(s) ** 2))}
         if M <= 1024:
             d = np.abs(s.reshape(-1, 1) - s.reshape(1, -1))
             np.fill_diagonal(d, 1)
-            if d.min() < 1e-9:
+            if (not (d.min() >= 1e-9)):
                 return {"points not distinct": float(d.min())}
         else:
             if len(set(np.round(s, 9).tolist())) != M:
